@@ -670,7 +670,7 @@ void var_opt_sketch<T, A>::reset() {
       data_[i].~T();
   }
 
-  if (curr_items_alloc_ < prev_alloc) {
+  if (curr_items_alloc_ != prev_alloc) {
     const bool is_gadget = (marks_ != nullptr);
   
     allocator_.deallocate(data_, prev_alloc);
